@@ -274,6 +274,13 @@ def mulcost(cv_or_bits):
     return max(0.0003, 0.06 * (bits / 256.0) ** 2.5)
 
 
+def linecost(cv, heavy=True, nmul=1):
+    """estimated driver seconds of one operation line on a NAMED curve: the value-level model builds the generator's
+    precomputation table on every line (about half a multiplication), then does the point work if the line gets that far"""
+    mc = mulcost(cv)
+    return mc * (0.45 + (0.5 * nmul if heavy else 0.0))
+
+
 class FakeCurve:
     """what `_truncate_and_convert_digest` reads from a curve object"""
 
@@ -656,3 +663,17 @@ def par_search(ctx, run_case, tagged_cases, procs=16, limit=3):
                 rec.update(bad)
                 ctx.violation(rec)
     return nbad
+
+
+import contextlib
+
+
+@contextlib.contextmanager
+def timed(ctx, name):
+    """wall seconds of a stage of the check into the evidence (coverage.stage_wall_s)"""
+    t0 = time.time()
+    try:
+        yield
+    finally:
+        d = ctx.cov.setdefault("stage_wall_s", {})
+        d[name] = round(d.get(name, 0) + time.time() - t0, 1)
